@@ -210,7 +210,8 @@ const NAMES: [&str; 8] = ["a", "b", "c", "d", "e", "f", "g", "h"];
 pub struct Driver {
     pub world: World,
     pub sink: Arc<Sink>,
-    pub probed: HashSet<u64>,
+    pub prev_keys: std::collections::HashMap<String, u64>,
+    pub prev_unpub: HashSet<String>,
     pub probes: bool,
     pub n_enc: usize,
     pub n_user: usize,
@@ -225,7 +226,8 @@ impl Driver {
         Ok(Driver {
             world,
             sink,
-            probed: HashSet::new(),
+            prev_keys: Default::default(),
+            prev_unpub: HashSet::new(),
             probes,
             n_enc: 0,
             n_user: 0,
@@ -237,7 +239,8 @@ impl Driver {
 
     pub fn reset(&mut self, meta: &Value) -> Result<(), String> {
         self.world = World::new(self.sink.clone())?;
-        self.probed.clear();
+        self.prev_keys.clear();
+        self.prev_unpub.clear();
         self.n_enc = 0;
         self.n_user = 0;
         self.n_name = 0;
@@ -287,35 +290,58 @@ impl Driver {
                 }
             }
         }
-        let mut todo = Vec::new();
-        for key in mpkv["keys"].as_array().cloned().unwrap_or_default() {
-            let p = key["p"].as_u64().unwrap_or(0);
-            if self.probed.contains(&p) {
-                continue;
-            }
-            let ids: Vec<u64> = key["r"]
-                .as_array()
-                .map(|a| a.iter().filter_map(Value::as_u64).collect())
-                .unwrap_or_default();
+        let clause_of = |r: &Value| -> Option<Value> {
+            let ids: Vec<u64> = r.as_array()?.iter().filter_map(Value::as_u64).collect();
             let mut clause = Vec::new();
             let mut dims_used = HashSet::new();
-            let mut ok = key["r"].is_array();
             for id in &ids {
                 match by_id.iter().find(|(i, _, _)| i == id) {
-                    Some((_, d, n)) if dims_used.insert(d.clone()) => {
-                        clause.push(json!([d, n]))
-                    }
-                    _ => ok = false,
+                    Some((_, d, n)) if dims_used.insert(d.clone()) => clause.push(json!([d, n])),
+                    _ => return None,
                 }
             }
-            if ok {
-                self.probed.insert(p);
-                todo.push(json!([clause]));
+            Some(json!([clause]))
+        };
+        // positive probes: every right whose published value differs from the one the PREVIOUS
+        // public key published for it (new right, rotated right, or a value that came back)
+        let mut keys_now: std::collections::HashMap<String, u64> = std::collections::HashMap::new();
+        let mut todo: Vec<(Value, bool)> = Vec::new();
+        for key in mpkv["keys"].as_array().cloned().unwrap_or_default() {
+            let p = key["p"].as_u64().unwrap_or(0);
+            let rk = key["r"].to_string();
+            keys_now.insert(rk.clone(), p);
+            if self.prev_keys.get(&rk) == Some(&p) {
+                continue;
+            }
+            if let Some(pol) = clause_of(&key["r"]) {
+                todo.push((pol, false));
             }
         }
-        for pol in todo {
+        // negative probes: rights the master key holds but this public key does not publish, when that
+        // is news (published or unknown before): encapsulating for them must fail
+        let mskv = self.world.msk.verif_view();
+        let mut unpub_now: HashSet<String> = HashSet::new();
+        for r in mskv["rights"].as_array().cloned().unwrap_or_default() {
+            let rk = r["r"].to_string();
+            if keys_now.contains_key(&rk) {
+                continue;
+            }
+            unpub_now.insert(rk.clone());
+            if self.prev_unpub.contains(&rk) {
+                continue;
+            }
+            if let Some(pol) = clause_of(&r["r"]) {
+                todo.push((pol, true));
+            }
+        }
+        self.prev_keys = keys_now;
+        self.prev_unpub = unpub_now;
+        for (pol, neg) in todo {
             self.n_enc += 1;
-            let op = json!({"op": "encaps", "e": format!("p{}", self.n_enc), "mpk": k, "pol": pol, "probe": true});
+            let mut op = json!({"op": "encaps", "e": format!("p{}", self.n_enc), "mpk": k, "pol": pol, "probe": true});
+            if neg {
+                op["neg"] = json!(true);
+            }
             let ev = self.world.exec(&op);
             self.sink.line(&ev);
         }
